@@ -326,8 +326,7 @@ Definition printable_instr (msel : list (string * bytes)) (i : instr) : bool :=
 Definition printable_comp (msel : list (string * bytes)) (c : comp) : bool :=
   match c with
   | COp i => printable_instr msel i
-  | CLabel l None => negb (String.eqb l "") && forallb label_char (list_ascii_of_string l)
-  | CLabel _ (Some _) => false
+  | CLabel l _ => negb (String.eqb l "") && forallb label_char (list_ascii_of_string l)
   | CPragma _ => true
   end.
 
@@ -582,28 +581,67 @@ Qed.
 Lemma pragma_line v : ("#pragma version " ++ N_to_dec v)%string = concat_sep " " ["#pragma"; "version"; N_to_dec v].
 Proof. reflexivity. Qed.
 
-Theorem comp_line msel c : printable_comp msel c = true ->
-  exists line, assemble_comp c = Some line /\ no_nl (list_ascii_of_string line) /\
-  exists ss, stmt_of msel c = Some ss /\ line_stmts msel line = Some ss.
+Definition lines_stmts (msel : list (string * bytes)) (lines : list string) : option (list stmt) :=
+  parse_stmts msel (flat_map (fun ln => split_semis (tokens_of_line ln) []) lines).
+
+Lemma lines_stmts_one msel ln : lines_stmts msel [ln] = line_stmts msel ln.
+Proof. unfold lines_stmts, line_stmts. cbn [flat_map]. now rewrite app_nil_r. Qed.
+
+Definition all_no_nl (ls : list string) : Prop := Forall (fun ln => no_nl (list_ascii_of_string ln)) ls.
+
+(* what one component prints is one or several whole lines (a subroutine label carries its comment lines and
+   an empty line in front); read as lines, they give the component's statements *)
+Theorem comp_lines msel c : printable_comp msel c = true ->
+  exists item ls, assemble_comp c = Some item /\ ls <> [] /\ item = join_nl ls /\ all_no_nl ls /\
+  exists ss, stmt_of msel c = Some ss /\ lines_stmts msel ls = Some ss.
 Proof.
-  destruct c as [i|l [cm|]|v]; cbn [printable_comp assemble_comp]; intros H.
-  - apply instr_line. exact H.
-  - discriminate H.
+  destruct c as [i|l cm|v]; cbn [printable_comp]; intros H.
+  - destruct (instr_line msel i H) as (line & A & N & ss & S & P).
+    exists line, [line]. cbn [assemble_comp]. split; [exact A|]. split; [discriminate|]. split; [reflexivity|].
+    split; [constructor; [exact N|constructor]|]. exists ss. split; [exact S|]. rewrite lines_stmts_one. exact P.
   - apply andb_true_iff in H as [Hne Hc]. apply negb_true_iff in Hne.
     assert (Hl : l <> ""%string) by (intros ->; discriminate Hne).
     destruct (label_line_statement msel l Hl Hc) as [T Pr].
-    eexists. split; [reflexivity|]. split.
+    assert (NL : no_nl (list_ascii_of_string (l ++ ":"))).
     { rewrite los_app. apply no_nl_app; [apply forallb_label_no_nl; exact Hc|].
       constructor; [|constructor]. intros E. discriminate E. }
-    exists [SLabel l]. split; [reflexivity|].
-    apply (line_one msel _ _ (Some (SLabel l)) T); [|exact Pr].
-    cbn [forallb]. destruct (String.eqb (l ++ ":") ";") eqn:E; [|reflexivity].
-    apply String.eqb_eq in E. destruct l as [|a [|b l']]; [congruence|discriminate E|discriminate E].
-  - eexists. split; [reflexivity|]. rewrite pragma_line.
+    assert (Semi : forallb (fun t => negb (String.eqb t ";")) [(l ++ ":")%string] = true).
+    { cbn [forallb]. destruct (String.eqb (l ++ ":") ";") eqn:E; [|reflexivity].
+      apply String.eqb_eq in E. destruct l as [|a [|b l']]; [congruence|discriminate E|discriminate E]. }
+    assert (PL : line_stmts msel (l ++ ":") = Some [SLabel l]).
+    { exact (line_one msel _ _ (Some (SLabel l)) T Semi Pr). }
+    destruct cm as [cm|].
+    + (* subroutine header: empty line, comment lines, label *)
+      set (L := (map (fun ln => "// " ++ ln)%string (header_lines cm) ++ [(l ++ ":")%string])%list).
+      assert (LN : L <> []) by (unfold L; destruct (map (fun ln => "// " ++ ln)%string (header_lines cm)); discriminate).
+      exists (header_text cm l), (""%string :: L). split; [reflexivity|]. split; [discriminate|]. split.
+      { unfold header_text, label_comment. fold (header_lines cm). rewrite concat_comment_join. fold L.
+        rewrite (join_cons "" L LN). reflexivity. }
+      split.
+      { constructor; [constructor|]. unfold L. apply Forall_app. split.
+        - apply Forall_forall. intros x Hin. apply in_map_iff in Hin. destruct Hin as (ln & <- & Hln).
+          pose proof (header_lines_no_nl cm) as F. rewrite Forall_forall in F. specialize (F ln Hln).
+          rewrite los_app. apply no_nl_app; [|exact F].
+          repeat (constructor; [intros X; discriminate X|]). constructor.
+        - constructor; [exact NL|constructor]. }
+      exists [SLabel l]. split; [reflexivity|].
+      unfold lines_stmts. rewrite parse_stmts_drop_comments.
+      assert (NC : is_comment_line (l ++ ":") = false).
+      { destruct l as [|c l']; [congruence|]. cbn in Hc. apply andb_prop in Hc. destruct Hc as [Hc _].
+        cbn [append is_comment_line]. destruct (l' ++ ":")%string; [reflexivity|]. rewrite (label_char_not_slash c Hc). reflexivity. }
+      cbn [filter is_comment_line negb]. unfold L. rewrite filter_app, filter_comment_lines. cbn [app filter]. rewrite NC. cbn [negb].
+      cbn [flat_map]. change (tokens_of_line "") with (@nil string). cbn [split_semis rev app parse_stmts].
+      change (parse_stmt msel []) with (@Some (option stmt) None).
+      unfold line_stmts in PL. rewrite app_nil_r, PL. reflexivity.
+    + exists (l ++ ":")%string, [(l ++ ":")%string]. split; [reflexivity|]. split; [discriminate|]. split; [reflexivity|].
+      split; [constructor; [exact NL|constructor]|]. exists [SLabel l]. split; [reflexivity|].
+      rewrite lines_stmts_one. exact PL.
+  - exists ("#pragma version " ++ N_to_dec v)%string, [("#pragma version " ++ N_to_dec v)%string].
+    split; [reflexivity|]. split; [discriminate|]. split; [reflexivity|]. rewrite pragma_line.
     assert (W : forallb word ["#pragma"; "version"; N_to_dec v] = true).
     { cbn [forallb]. rewrite dec_word. reflexivity. }
-    split; [apply words_no_nl; exact W|].
-    exists [SPragma v]. split; [reflexivity|].
+    split; [constructor; [apply words_no_nl; exact W|constructor]|].
+    exists [SPragma v]. split; [reflexivity|]. rewrite lines_stmts_one.
     apply (line_one msel _ ["#pragma"; "version"; N_to_dec v] (Some (SPragma v))).
     + apply tokens_words; [discriminate|exact W].
     + apply words_no_semi. exact W.
@@ -620,39 +658,67 @@ Proof.
     destruct (parse_stmt msel ts) as [[s|]|]; destruct (parse_stmts msel a); destruct (parse_stmts msel b); reflexivity.
 Qed.
 
-Definition lines_stmts (msel : list (string * bytes)) (lines : list string) : option (list stmt) :=
-  parse_stmts msel (flat_map (fun ln => split_semis (tokens_of_line ln) []) lines).
+Lemma lines_stmts_app msel a b :
+  lines_stmts msel (a ++ b) =
+  match lines_stmts msel a, lines_stmts msel b with Some x, Some y => Some (x ++ y) | _, _ => None end.
+Proof. unfold lines_stmts. rewrite flat_map_app. apply parse_stmts_app. Qed.
 
-Theorem lines_roundtrip msel : forall code, printable msel code = true ->
-  exists lines ss,
-    assemble_all code = Some lines /\ Forall (fun ln => no_nl (list_ascii_of_string ln)) lines /\
-    List.length lines = List.length code /\
-    stmts_of msel code = Some ss /\ lines_stmts msel lines = Some ss.
+(* joining: items that are themselves joined lines *)
+Lemma join_nl_app : forall a b, a <> [] -> b <> [] -> join_nl (a ++ b) = (join_nl a ++ nl ++ join_nl b)%string.
 Proof.
-  induction code as [|c t IH]; intros H.
-  - exists [], []. repeat split. constructor.
-  - unfold printable in H. cbn [forallb] in H. apply andb_true_iff in H as [Hc Ht].
-    destruct (IH Ht) as (lines & ss & A & N & L & S & P).
-    destruct (comp_line msel c Hc) as (line & Ac & Nc & s1 & Sc & Pc).
-    exists (line :: lines), (s1 ++ ss). cbn [assemble_all stmts_of]. rewrite Ac, A, Sc, S.
-    split; [reflexivity|]. split; [constructor; assumption|]. split; [cbn [List.length]; now rewrite L|].
-    split; [reflexivity|].
-    unfold lines_stmts. cbn [flat_map]. rewrite parse_stmts_app.
-    unfold line_stmts in Pc. rewrite Pc. unfold lines_stmts in P. rewrite P. reflexivity.
+  induction a as [|x t IH]; intros b Ha Hb; [congruence|].
+  destruct t as [|y t'].
+  - cbn [app]. rewrite join_cons by exact Hb. reflexivity.
+  - change ((x :: y :: t') ++ b) with (x :: ((y :: t') ++ b)).
+    rewrite join_cons by discriminate. rewrite IH by (try discriminate; exact Hb).
+    rewrite (join_cons x (y :: t')) by discriminate. now rewrite !app_str_assoc.
 Qed.
 
-(* the program text: lines joined by line feeds *)
-Definition program_text (lines : list string) : string := join_nl lines.
+Lemma join_nl_concat : forall lss, Forall (fun ls => ls <> []) lss ->
+  join_nl (map join_nl lss) = join_nl (List.concat lss).
+Proof.
+  induction lss as [|ls rest IH]; intros H; [reflexivity|].
+  inversion H as [|? ? Hls Hrest]; subst. cbn [map List.concat].
+  destruct rest as [|ls2 rest'].
+  - cbn [map List.concat join_nl]. now rewrite app_nil_r.
+  - rewrite join_cons by discriminate. rewrite IH by exact Hrest.
+    rewrite join_nl_app; [reflexivity|exact Hls|].
+    inversion Hrest as [|? ? H2 _]; subst. cbn [List.concat]. destruct ls2; [congruence|discriminate].
+Qed.
+
+Theorem lines_roundtrip msel : forall code, printable msel code = true ->
+  exists items lss ss,
+    assemble_all code = Some items /\ items = map join_nl lss /\
+    Forall (fun ls => ls <> []) lss /\ all_no_nl (List.concat lss) /\
+    List.length items = List.length code /\
+    stmts_of msel code = Some ss /\ lines_stmts msel (List.concat lss) = Some ss.
+Proof.
+  induction code as [|c t IH]; intros H.
+  - exists [], [], []. repeat split; constructor.
+  - unfold printable in H. cbn [forallb] in H. apply andb_true_iff in H as [Hc Ht].
+    destruct (IH Ht) as (items & lss & ss & A & I & NE & N & L & S & P).
+    destruct (comp_lines msel c Hc) as (item & ls & Ac & NEc & Ic & Nc & s1 & Sc & Pc).
+    exists (item :: items), (ls :: lss), (s1 ++ ss). cbn [assemble_all stmts_of]. rewrite Ac, A, Sc, S.
+    split; [reflexivity|]. split; [cbn [map]; now rewrite Ic, I|]. split; [constructor; assumption|].
+    split; [cbn [List.concat]; apply Forall_app; split; assumption|].
+    split; [cbn [List.length]; now rewrite L|]. split; [reflexivity|].
+    cbn [List.concat]. rewrite lines_stmts_app, Pc, P. reflexivity.
+Qed.
+
+(* the program text: what PyTeal returns, the assembled components joined by line feeds *)
+Definition program_text (items : list string) : string := join_nl items.
 
 Theorem text_roundtrip msel code lines :
   printable msel code = true -> code <> [] -> assemble_all code = Some lines ->
   exists ss, stmts_of msel code = Some ss /\ statements_of_text msel (program_text lines) = Some ss.
 Proof.
-  intros H Hne A. destruct (lines_roundtrip msel code H) as (lines' & ss & A' & N & L & S & P).
+  intros H Hne A. destruct (lines_roundtrip msel code H) as (items & lss & ss & A' & I & NE & N & L & S & P).
   rewrite A in A'. injection A' as <-.
   exists ss. split; [exact S|].
-  unfold statements_of_text, program_text. rewrite split_lines_join; [exact P| |exact N].
-  intros E. subst lines. destruct code; [congruence|discriminate L].
+  unfold statements_of_text, program_text. rewrite I, join_nl_concat by exact NE.
+  rewrite split_lines_join; [exact P| |exact N].
+  intros E. destruct lss as [|ls rest]; [subst lines; destruct code; [congruence|discriminate L]|].
+  inversion NE as [|? ? Hls _]; subst. cbn [List.concat] in E. destruct ls; [congruence|discriminate E].
 Qed.
 
 (* the assembler's program for the text is the linked program of the list *)
@@ -666,4 +732,4 @@ Qed.
 
 (* printable lists always assemble *)
 Corollary printable_assembles msel code : printable msel code = true -> exists lines, assemble_all code = Some lines.
-Proof. intros H. destruct (lines_roundtrip msel code H) as (lines & ss & A & _). exists lines. exact A. Qed.
+Proof. intros H. destruct (lines_roundtrip msel code H) as (items & lss & ss & A & _). exists items. exact A. Qed.
